@@ -63,6 +63,61 @@ def lift2(f, l, r, dtype="num"):
     return Val.of_arr(arr_map2(f, la, ra, dtype))
 
 
+def _tag_lin(op, l, r, res):
+    """1-D real array (op) scalar: remember the affine form  res[i] == c * base[i] + d  (used by the model of np.sum)."""
+    try:
+        la, ra = as_arr_or_none(l), as_arr_or_none(r)
+        if res.arr is None or res.arr.ndim != 1 or res.arr.dtype != "num" or (la is None) == (ra is None):
+            return res
+        a = la if la is not None else ra
+        sv = r if la is not None else l
+        if a.ndim != 1 or a.dtype != "num" or sv.num is None or sv.arr is not None or sv.num.t is not None:
+            return res
+        s_ = _real(sv.num.r)
+        base, c, d = getattr(a, "lin", None) or (a, z3.RealVal(1), z3.RealVal(0))
+        if op == "+":
+            lin = (base, c, d + s_)
+        elif op == "-":
+            lin = (base, c, d - s_) if la is not None else (base, -c, s_ - d)
+        elif op == "*":
+            lin = (base, c * s_, d * s_)
+        elif op == "/" and la is not None:
+            lin = (base, c / s_, d / s_)
+        else:
+            return res
+        res.arr.lin = lin
+    except Exception:
+        pass
+    return res
+
+
+def sum_real(a):
+    """T3 model of np.sum over a 1-D real array (mathematical reals, no rounding): Sum is an uninterpreted function of the
+    vector (as a value) and its length; an affine image c*base+d sums to c*Sum(base)+n*d; positivity/upper-bound facts."""
+    c = ctx()
+    base, k, d = getattr(a, "lin", None) or (a, None, None)
+    m = materialize(base)
+    if m.pt is None:
+        return None
+    n = base.shape[0]
+    Sum = c.uf("Sum", z3.ArraySort(z3.IntSort(), z3.RealSort()), z3.IntSort(), z3.RealSort())
+    S = Sum(m.pt, n)
+    key = ("Sum", str(m.pt), str(n))
+    if key not in c.fact_keys:
+        c.fact_keys.add(key)
+        i = z3.Int(c.fresh("q_sum"))
+        rng = z3.And(i >= 0, i < n)
+        el = _real(m.elem(i).r)
+        allpos = z3.ForAll([i], z3.Implies(rng, el > 0))
+        allnn = z3.ForAll([i], z3.Implies(rng, el >= 0))
+        c.add_fact(z3.Implies(z3.And(n >= 1, allpos), S > 0))
+        c.add_fact(z3.Implies(allnn, z3.And(S >= 0, z3.ForAll([i], z3.Implies(rng, el <= S)))))
+        c.add_fact(z3.Implies(n == 0, S == 0))
+    if k is None:
+        return N(S)
+    return N(k * S + z3.ToReal(n) * d)
+
+
 def lift1(f, v, dtype="num"):
     a = as_arr_or_none(v)
     if a is None:
@@ -135,15 +190,15 @@ def binop(eng, op, l, r, node):
             return Val(s=z3.Int(ctx().fresh("strcat")), py=("fstr",))
         if tl and tr:
             return Val.of_tup(l.tup + r.tup)
-        return lift2(n_add, l, r)
+        return _tag_lin("+", l, r, lift2(n_add, l, r))
     if isinstance(op, ast.Sub):
-        return lift2(n_sub, l, r)
+        return _tag_lin("-", l, r, lift2(n_sub, l, r))
     if isinstance(op, ast.Mult):
         if tl or tr:
             return opaque("seqmul")
-        return lift2(n_mul, l, r)
+        return _tag_lin("*", l, r, lift2(n_mul, l, r))
     if isinstance(op, ast.Div):
-        return lift2(n_div, l, r)
+        return _tag_lin("/", l, r, lift2(n_div, l, r))
     if isinstance(op, ast.Pow):
         return lift2(n_pow, l, r)
     if isinstance(op, ast.FloorDiv):
@@ -309,7 +364,11 @@ def arr_attr(eng, a, at):
 def transpose(a):
     if a.ndim != 2:
         return a
-    return Arr(2, (a.shape[1], a.shape[0]), lambda i, j: a.elem(j, i), a.dtype)
+    r = Arr(2, (a.shape[1], a.shape[0]), lambda i, j: a.elem(j, i), a.dtype)
+    rp = getattr(a, "rowperm", None)
+    if rp is not None:
+        r.colperm = rp  # columns of the transpose are the permuted rows
+    return r
 
 
 def flatten(a):
@@ -354,13 +413,23 @@ def count_true(m):
 def mask_select(a, m, axis=0):
     """a[m] for a 1-D boolean mask over axis 0 (rows): order-preserving subsequence."""
     c = ctx()
-    nm = c.fresh("sel")
+    # the enumeration of the true positions is a function of the mask alone: every selection through the same mask object
+    # shares it (X[m], Y[m], S[m] are row-aligned)
+    cache = getattr(m, "_selcache", None)
     n = count_true(m)
-    sel = c.uf(nm, z3.IntSort(), z3.IntSort())
     rows = a.shape[0]
+    if cache is None:
+        nm = c.fresh("sel")
+        sel = c.uf(nm, z3.IntSort(), z3.IntSort())
+        inv = c.uf(nm + "!inv", z3.IntSort(), z3.IntSort())
+        done = []
+        try:
+            m._selcache = (nm, sel, inv, done)
+        except Exception:
+            pass
+    else:
+        nm, sel, inv, done = cache
     c.add_fact(z3.And(n >= 0, n <= rows))
-    inv = c.uf(nm + "!inv", z3.IntSort(), z3.IntSort())
-    done = []
     dfn = [nm, nm + "!inv"]
 
     def axioms():
@@ -379,7 +448,7 @@ def mask_select(a, m, axis=0):
         finally:
             c.binders.pop()
         c.add_fact(z3.ForAll([i], z3.Implies(z3.And(0 <= i, i < rows, mi), z3.And(0 <= inv(i), inv(i) < n, sel(inv(i)) == i)), patterns=[inv(i)]), defines=dfn)
-        c.add_fact(z3.ForAll([k], z3.Implies(z3.And(0 <= k, k < n), z3.And(0 <= sel(k), sel(k) < rows, inv(sel(k)) == k)), patterns=[sel(k)]), defines=dfn)
+        c.add_fact(z3.ForAll([k], z3.And(inv(sel(k)) == k, z3.Implies(z3.And(0 <= k, k < n), z3.And(0 <= sel(k), sel(k) < rows))), patterns=[sel(k)]), defines=dfn)
         c.binders = saved
 
     def fact_at(kk):
@@ -461,7 +530,12 @@ def index(eng, a, sl, st, node):
             elif v.py is not None and v.py[0] == "slice":
                 return None
             else:
-                kinds.append(("int", _norm_index(eng.as_int(v), d)))
+                raw = eng.as_int(v)
+                cc = getattr(eng, "cur_contract", None)
+                if cc is not None and getattr(cc, "index_checks", False) and eng.inline_depth == 0 and eng.spec is None:
+                    # opt-in safety semantics: an out-of-range scalar index raises IndexError
+                    raise_if(eng, st, z3.Not(z3.And(raw >= -d, raw < d)), "IndexError", node)
+                kinds.append(("int", _norm_index(raw, d)))
     while len(kinds) < a.ndim:
         kinds.append(("slice", I0, a.shape[len(kinds)]))
     # boolean mask (same rank) a[m] -> 1-D compress
@@ -488,6 +562,10 @@ def index(eng, a, sl, st, node):
             r.aligned = (m, lambda *i: a.elem(*i))
             return Val.of_arr(r)
         return None
+    if a.ndim == 2 and len(kinds) == 2 and kinds[0][0] == "arr" and kinds[0][1].dtype == "bool" and kinds[0][1].ndim == 1 and kinds[1][0] == "slice" \
+            and isinstance(parts[1], ast.Slice) and parts[1].lower is None and parts[1].upper is None and parts[1].step is None:
+        # a[mask, :] -> row compress
+        return Val.of_arr(mask_select(a, kinds[0][1]))
     if a.ndim == 2 and kinds[0][0] == "slice" and kinds[1][0] == "arr" and kinds[1][1].dtype == "bool" and kinds[1][1].ndim == 1:
         # a[:, mask] -> column compress
         t = mask_select(transpose(a), kinds[1][1])
@@ -969,6 +1047,20 @@ def raise_here(eng, st, exc, node):
     st.pc = z3.BoolVal(False)
 
 
+def raise_if(eng, st, cond, exc, node):
+    """The statement raises `exc` exactly when cond holds; execution continues under not cond."""
+    from .symexec import Exit
+    cond = z3.simplify(cond)
+    if z3.is_false(cond):
+        return
+    xs = st.copy()
+    xs.pc = z3.And(st.pc, cond)
+    ex = Exit("raise", xs, exc=exc, where=eng.where(node))
+    ex.tag = "implicit[%s]" % exc
+    eng.push_exit(ex)
+    st.pc = z3.And(st.pc, z3.Not(cond))
+
+
 def np_tril(eng, st, args, kw, node):
     a = as_arr_or_none(args[0])
     k = eng.as_int(args[1]) if len(args) > 1 else (eng.as_int(kw["k"]) if "k" in kw else I0)
@@ -1167,7 +1259,10 @@ def np_sum(eng, st, args, kw, node):
         c.add_fact((s == 0) == z3.Not(arr_exists(a)))
         c.add_fact((s == a.size()) == arr_forall(a))
         return Val.of_num(N(s))
-    c = ctx()
+    if a.ndim == 1 and a.dtype == "num" and _axis(kw, args, 1) in (None, 0):
+        r = sum_real(a)
+        if r is not None:
+            return Val.of_num(r)
     ctx().note("opaque-expr", eng.where(node), "sum")
     return opaque("sum")
 
@@ -1263,14 +1358,22 @@ def np_sort(eng, st, args, kw, node):
         saved, c.binders = c.binders, []
         k, k2 = z3.Int(nm + "!k"), z3.Int(nm + "!k2")
         dfn = [nm, nm + "!inv"]
-        c.add_fact(z3.ForAll([k], z3.Implies(z3.And(0 <= k, k < n), z3.And(0 <= perm(k), perm(k) < n, inv(perm(k)) == k)), patterns=[perm(k)]), defines=dfn)
-        c.add_fact(z3.ForAll([k], z3.Implies(z3.And(0 <= k, k < n), z3.And(0 <= inv(k), inv(k) < n, perm(inv(k)) == k)), patterns=[inv(k)]), defines=dfn)
+        c.add_fact(z3.ForAll([k], z3.And(inv(perm(k)) == k, z3.Implies(z3.And(0 <= k, k < n), z3.And(0 <= perm(k), perm(k) < n))), patterns=[perm(k)]), defines=dfn)
+        c.add_fact(z3.ForAll([k], z3.And(perm(inv(k)) == k, z3.Implies(z3.And(0 <= k, k < n), z3.And(0 <= inv(k), inv(k) < n))), patterns=[inv(k)]), defines=dfn)
         c.binders.append([k, k2])
         try:
             asc = n_le(a.elem(perm(k)), a.elem(perm(k2)))
         finally:
             c.binders.pop()
         c.add_fact(z3.ForAll([k, k2], z3.Implies(z3.And(0 <= k, k < k2, k2 < n), asc), patterns=[z3.MultiPattern(perm(k), perm(k2))]), defines=dfn)
+        # consequence of sortedness + bijection, stated directly (E-matching has no term inv(k) to start from):
+        # the first element of the sorted order is a least element
+        c.binders.append([k])
+        try:
+            least = n_le(a.elem(perm(z3.IntVal(0))), a.elem(k))
+        finally:
+            c.binders.pop()
+        c.add_fact(z3.ForAll([k], z3.Implies(z3.And(0 <= k, k < n), least)), defines=dfn)
         c.binders = saved
 
     def pm(kk):
